@@ -25,6 +25,7 @@ from concurrent.futures import Future
 
 PROPERTY = "C16"
 RULE = ("cases = (stage outcomes: syntax error | validation error | ambiguous/unknown operation | variable coercion error | "
+        "subscription operation sent through process_graphql_query (InvalidOperationError since fix X5) | "
         "execution) x (document as text | parsed) x (query | mutation=serial) x random field tree (depth<=3, object/list/leaf "
         "fields, per field outcome returns | raises ResolverError | argument coercion error, null and empty lists) x "
         "4 executor/runtime configurations x 0..3 middlewares x instrumentation stack (1..3 leaves, flat or nested "
@@ -34,12 +35,13 @@ RULE = ("cases = (stage outcomes: syntax error | validation error | ambiguous/un
 ASSUMPTIONS = [
     "ResolverError is raised by field resolvers; a ResolverError raised during value completion (resolve_type, serialize) is covered "
     "by one named probe only (finding N2: Executor then fires on_field_end twice)",
-    "requests whose processing raises out of process_graphql_query (subscription operation given to execute, RuntimeError in "
+    "requests whose processing raises out of process_graphql_query (RuntimeError in "
     "value completion, non-ResolverError exceptions of resolvers) produce no outcome and are not quantified over",
     "middlewares are plain synchronous callables mw(next, root, ctx, info, **args) that call next exactly once (what the docstring of apply_middlewares documents)",
     "thread-pool runtime: ThreadPoolRuntime._inner is replaced by a manual executor so that the harness owns the completion order "
     "(atomic completions; callback bodies never overlap)",
-    "sibling response keys are distinct (guaranteed by collect_fields grouping), so a path identifies a field",
+    "sibling response keys are distinct (guaranteed by collect_fields grouping); under that hypothesis a path identifies a field "
+    "(theorem field_paths_unique) and every hook fires exactly once per path (field_hooks_exactly_once_per_path)",
 ]
 TRUSTED = [
     "hand-written model Instr.lean of _graphql.process_graphql_query / execute / Executor.resolve_field / BlockingExecutor.resolve_field / "
@@ -48,7 +50,7 @@ TRUSTED = [
 ]
 
 CONFIGS = ["blocking", "exec-blocking", "threadpool", "asyncio"]
-OUTCOMES = ["exec", "syntax", "validation", "opsel-ambiguous", "opsel-unknown", "vars"]
+OUTCOMES = ["exec", "syntax", "validation", "opsel-ambiguous", "opsel-unknown", "vars", "subscription-op"]
 HARD_TIMEOUT = 10.0
 
 
@@ -141,6 +143,9 @@ def gen_case(rng, size=2):
         "fields": instantiate(rng, tmpl, rng.choice([0.0, 0.15, 0.4]), novalidate),
         "sched": [rng.randint(0, 7) for _ in range(24)],
     }
+    if outcome == "subscription-op":       # one root field, or validation (SingleFieldSubscriptions) rejects it first
+        case["fields"] = case["fields"][:1]
+        case["use_var"] = False
     return case
 
 
@@ -236,6 +241,8 @@ def build_document(case):
     tmpl = [{"k": n["k"], "f": n["f"], "sel": n["sel"]} for n in case["fields"]]
     body = render_sel(tmpl, argmap, ())
     kind = "mutation" if case["serial"] else "query"
+    if case["outcome"] == "subscription-op":
+        kind = "subscription"
     decl = ""
     if case["use_var"]:
         decl = "($v: Int!)"
@@ -288,6 +295,7 @@ def model_request(case):
         "valid": out != "validation",
         "opsel": "error" if out.startswith("opsel") else "ok",
         "vars": "error" if out == "vars" else "ok",
+        "subscriptionOp": out == "subscription-op",
         "serial": bool(case["serial"]),
         "mws": case["mws"],
         "instr": case["instr"],
@@ -390,7 +398,8 @@ def schema_for(mode):
     ref[0] = T
     Q = ObjectType("Query", fields(ref))
     M = ObjectType("Mutation", fields(ref))
-    s = Schema(query_type=Q, mutation_type=M)
+    S = ObjectType("Subscription", fields(ref))
+    s = Schema(query_type=Q, mutation_type=M, subscription_type=S)
 
     def logging_default(root, ctx, info, **args):
         # the schema-wide default resolver (never wrapped by the runtime): used by `dflt`
@@ -915,7 +924,7 @@ def exhaustive_cases():
                 for serial in (False, True):
                     out.append({"config": cfg, "outcome": oc, "doc_is_text": text, "serial": serial, "novalidate": False,
                                 "use_var": oc == "vars", "mws": 2, "instr": [0, 1], "tracer": True,
-                                "fields": copy.deepcopy(forest), "sched": [0] * 12})
+                                "fields": copy.deepcopy(forest[:1] if oc == "subscription-op" else forest), "sched": [0] * 12})
     import itertools
     for cfg in ("threadpool", "asyncio"):
         for serial in (False, True):
